@@ -1118,14 +1118,15 @@ def apply_step(ctx, db, model, st, nested=False):
             ctx.opc_override = f"load-{st['fmt']}/into-file-backed-basic-db"
         if cur not in ("Basic", want):
             try:
-                apply_load(ctx, db, model, st)
+                out = apply_load(ctx, db, model, st)
             except TypeError:
                 res.refused += 1
                 res.count("refused:load-into-incompatible-class")
                 return db, model
-            res.evals += 1
-            res.witness(f"C17/load-{st['fmt']}/into-incompatible-class-accepted", db_class=cur, replay_case=ctx.replay(step=st))
-            raise Diverged
+            # G: the refusal itself is not demanded (an EMPTY db of the other class is accepted: nothing can be lost).
+            # What is demanded is decided by the comparison after the step: every record of db and of the file is there.
+            res.count("observed:load-into-incompatible-class-accepted")
+            return out
         return apply_load(ctx, db, model, st)
     if op in ("update", "union"):
         other, omodel = build(ctx, st["other"])
